@@ -115,7 +115,8 @@ def section(p):
             if isinstance(cb, list):
                 cb = ", ".join(cb)
             what = m.get("breaks") or m.get("summary") or ""
-            L.append("* `%s` — %s Caught by: %s.%s" % (sid, (what.rstrip(".") + ".") if what else "", cb, (" " + m["note"]) if m.get("note") else ""))
+            fr = (" First run (before any rule was added for it): %s." % m["first_run"]) if m.get("first_run") else ""
+            L.append("* `%s` — %s Caught by: %s.%s%s" % (sid, (what.rstrip(".") + ".") if what else "", cb, fr, (" " + m["note"]) if m.get("note") else ""))
         L.append("")
     notes = J("design", "notes", pid + ".md")
     if os.path.exists(notes):
@@ -144,7 +145,7 @@ for p in props:
         cb = m.get("caught_by") or "—"
         if isinstance(cb, list):
             cb = ", ".join(cb)
-        seed_rows.append("| %s | %s | %s |" % (sid, (m.get("breaks") or "").replace("|", "\\|"), cb))
+        seed_rows.append("| %s | %s | %s%s |" % (sid, (m.get("breaks") or "").replace("|", "\\|"), cb, (" (first run: %s)" % m["first_run"]) if m.get("first_run") else ""))
 mut_total = sum(len(mutants_of(p["id"])[0]) for p in props)
 eq_total = sum(len(mutants_of(p["id"])[1]) for p in props)
 tail = tail.replace("{{FIXED_TABLE}}", "| property | commit | rule, construct — what failed |\n|---|---|---|\n" + "\n".join(fixed_rows))
